@@ -12,7 +12,7 @@ from sqlcase import RL, DISK_LAYOUTS, ms, ordered_equal
 
 TYPES = ("INT", "BIGINT", "SMALLINT", "BOOLEAN", "VARCHAR", "DOUBLE", "DECIMAL(10,2)", "DATE")
 FEATURES = dict(full_join=False, not_in_sub=False, scalar_sub=True, like=True, bool_col_cond=False,
-                offset_no_limit=False, case_no_else=True, corr_in_sub=False, mixed_int=True, null_lit=False)
+                offset_no_limit=False, case_no_else=True, corr_in_sub=False, mixed_int=True, null_lit=True)
 
 
 def err_class(e):
